@@ -319,6 +319,10 @@ pub fn specials() -> Vec<Spec> {
         n(l(1), vec![a(el(l(2)), l(3)), a(l(4), co(w(l(5)))), a(en(l(6)), en(l(7)))]),
         // node whose subject is a node (decoder only)
         n(n(l(1), vec![a(l(2), l(3))]), vec![a(l(4), l(5)), a(l(6), l(7))]),
+        // the subject's digest repeated among its own assertion elements (an assertion carrying itself; a subject with its own elided twin)
+        n(a(l(1), l(2)), vec![a(l(1), l(2))]),
+        n(a(l(1), l(2)), vec![a(l(1), l(2)), a(l(3), l(4))]),
+        n(l(1), vec![el(l(1)), a(l(2), l(3))]),
         // repeated content at several positions
         n(l(1), vec![a(l(2), l(1)), a(l(3), w(l(1))), a(l(2), l(4))]),
     ]
